@@ -327,6 +327,9 @@ func RunRapid[C any](t *testing.T, unit string, gen func(*rapid.T) C, check func
 			t.Fatalf("bad replay case: %v", err)
 		}
 		// simulated cases are not bit-reproducible (scheduler, crypto/rand): repeat
+		if n, err := strconv.Atoi(os.Getenv("VERIF_REPLAY_REPEAT")); err == nil && n > 0 {
+			ReplayRepeat = n // investigating a schedule-dependent failure: re-execute the saved case more often
+		}
 		for i := 0; i < ReplayRepeat; i++ {
 			u.Case()
 			if v := run(c); v != nil {
